@@ -9,9 +9,16 @@ git checkout -q -- . ; git clean -fdq -e _out
 pkg=$(python3 -c "import json;p=json.load(open('$m/meta.json')).get('demo_pkg_dir','.');print('.' if (' ' in p or p.startswith('/')) else p)")
 cmd=$(python3 -c "import json;print(json.load(open('$m/meta.json'))['demo_cmd'])")
 echo "demo_pkg_dir=$pkg"; echo "demo_cmd=$cmd"
+pat=$(python3 -c "
+import json,re
+c=json.load(open('$m/meta.json'))['demo_cmd']
+r=re.search(r'-run[ =]+(\S+)', c)
+print(r.group(1).strip('\'\"') if r else '')")
+[ -z "$pat" ] && pat='Demo|C[0-9][0-9]|[Mm][12]'
+echo "run pattern: $pat"
 demo=$(ls $m/*_test.go | head -1)
 cp "$demo" "$wt/$pkg/zz_demo_test.go"
-run_demo() { (cd "$wt" && timeout 300 go test -tags verif -vet=off -count=1 -timeout 120s -run 'Demo|C[0-9][0-9]|[Mm][12]' ./$pkg 2>&1 | tail -5); }
+run_demo() { (cd "$wt" && timeout 300 go test -tags verif -vet=off -count=1 -timeout 120s -run "$pat" ./$pkg 2>&1 | tail -5); }
 echo "--- demo on unchanged tree"; run_demo | grep -E "^(ok|FAIL|---|panic)" | tail -3
 git apply --check "$m/patch.diff" || { echo "PATCH DOES NOT APPLY"; exit 1; }
 git apply "$m/patch.diff"
